@@ -139,7 +139,7 @@ def run(ctx):
     monb = common.report_monitor_violations(ctx, db)
     ctx.oblige("dynamic: every GeneralizedTime validity field the parser accepts has at least 5 octets (the guard of c02_gentime_safe) and the time-format lints do not panic on it", not monb)
     for name, fn, model in BODY_STREAMS:
-        fb = common.corr_stream(ctx, name, db["cases"].get(name, []), BODIES_HEADER, fn, model, shard={"dsa": 12}.get(name, 400))
+        fb = common.corr_stream(ctx, name, db["cases"].get(name, []), BODIES_HEADER, fn, model, shard={"dsa": 2 if ctx.tier == "thorough" else 12}.get(name, 400))
         if name == "dsa":
             common.require_outcomes(ctx, "dsa", db["cases"].get("dsa", []), [{"3", "6"}] * 4)
         if name == "validity":
